@@ -1015,3 +1015,6 @@ LEVEL_NOTE = ("Exact arithmetic over Q; running code compared to 1e-9 relative o
               "outside the model; harness and case printer trusted; no axioms")
 TECHNIQUE = "Coq proof (convexity, induction, loop invariants) on executable model + in-Coq differential correspondence"
 DESIGN_REF = "DESIGN.md section 7, C08"
+
+# --- second build round: additions to the claimed level
+LEVEL_TEXT += "; log-uniform sampling returns points inside the bounds (theorem over R)"
